@@ -177,12 +177,14 @@ def stat_parse():
     rvar = rl[0].target.id
     out.append(f"Definition gen_row_skip : nat := {slice_start(rl[0].iter, 'rows')}.")
     body = strip_doc(rl[0].body)
-    sn = [s for s in body if isinstance(s, ast.Assign) and ast.unparse(s.value) == f"{rvar}[0]"]
-    if len(sn) != 1 or not isinstance(sn[0].targets[0], ast.Name):
-        raise Refuse("subject name is not r[0]")
-    snv = sn[0].targets[0].id
-    if not any(ast.unparse(s) == f"subj_names.append({snv})" for s in body):
-        raise Refuse("subject name not appended")
+    if sum(1 for s in body if ast.unparse(s) == f"subj_names.append({rvar}[0])") != 1:
+        # not the normalised spelling: a name bound to r[0] and appended
+        sn = [s for s in body if isinstance(s, ast.Assign) and ast.unparse(s.value) == f"{rvar}[0]"]
+        if len(sn) != 1 or not isinstance(sn[0].targets[0], ast.Name):
+            raise Refuse("subject name is not r[0]")
+        snv = sn[0].targets[0].id
+        if not any(ast.unparse(s) == f"subj_names.append({snv})" for s in body):
+            raise Refuse("subject name not appended")
     inner = [s for s in body if isinstance(s, ast.For)]
     if len(inner) != 1:
         raise Refuse("cell loop")
@@ -270,13 +272,18 @@ def stat_parse():
     # ---- get_summary / get
     gs = find_func(tree, "get_summary", "Panoptica_Statistic")
     b = strip_doc(gs.body)
-    if not (len(b) == 2 and isinstance(b[0], ast.Assign) and isinstance(b[0].value, ast.Call) and dotted(b[0].value.func) == "self.get"
-            and isinstance(b[1], ast.Return) and ast.unparse(b[1].value) == f"ValueSummary({b[0].targets[0].id})"):
+    getcall = None
+    if len(b) == 2 and isinstance(b[0], ast.Assign) and isinstance(b[1], ast.Return) and ast.unparse(b[1].value) == f"ValueSummary({ast.unparse(b[0].targets[0])})":
+        getcall = b[0].value
+    elif len(b) == 1 and isinstance(b[0], ast.Return) and isinstance(b[0].value, ast.Call) and ast.unparse(b[0].value.func) == "ValueSummary" \
+            and len(b[0].value.args) == 1 and not b[0].value.keywords:
+        getcall = b[0].value.args[0]                                  # normalised spelling
+    if not (isinstance(getcall, ast.Call) and dotted(getcall.func) == "self.get"):
         raise Refuse("get_summary shape")
-    kws = {k.arg: k.value for k in b[0].value.keywords}
-    pos = b[0].value.args
+    kws = {k.arg: k.value for k in getcall.keywords}
+    pos = getcall.args
     if [ast.unparse(a) for a in pos[:2]] != ["group", "metric"]:
-        raise Refuse("get_summary passes " + ast.unparse(b[0].value))
+        raise Refuse("get_summary passes " + ast.unparse(getcall))
     rn = kws.get("remove_nones", pos[2] if len(pos) > 2 else None)
     g = find_func(tree, "get", "Panoptica_Statistic")
     default = g.args.defaults[-1] if g.args.defaults else None
@@ -402,11 +409,16 @@ def tsv_layout():
     gvar = outer[0].target.id
     ev = innr[0].target.id
     ib = strip_doc(innr[0].body)
-    if not (len(ib) == 2 and isinstance(ib[0], ast.Assign) and isinstance(ib[0].value, ast.IfExp)
-            and ast.unparse(ib[0].value.test) == f"{ev} in result_dict" and ast.unparse(ib[0].value.body) == f"result_dict[{ev}]"
-            and ast.unparse(ib[1]) == f"content.append({ib[0].targets[0].id})"):
+    cell = None
+    if len(ib) == 1 and isinstance(ib[0], ast.Expr) and isinstance(ib[0].value, ast.Call) and ast.unparse(ib[0].value.func) == "content.append" \
+            and len(ib[0].value.args) == 1 and not ib[0].value.keywords:
+        cell = ib[0].value.args[0]                                   # normalised spelling: the cell is written inside the append
+    elif len(ib) == 2 and isinstance(ib[0], ast.Assign) and isinstance(ib[0].targets[0], ast.Name) \
+            and ast.unparse(ib[1]) == f"content.append({ib[0].targets[0].id})":
+        cell = ib[0].value
+    if not (isinstance(cell, ast.IfExp) and ast.unparse(cell.test) == f"{ev} in result_dict" and ast.unparse(cell.body) == f"result_dict[{ev}]"):
         raise Refuse("row cell statement")
-    dflt = ib[0].value.orelse
+    dflt = cell.orelse
     if not (isinstance(dflt, ast.Constant) and isinstance(dflt.value, str)):
         raise Refuse("row default is not a string constant: " + ast.unparse(dflt))
     out.append(f"Definition gen_missing_cell : name := {cps(dflt.value)}.")
